@@ -22,11 +22,67 @@ def pkey(p):
     return proj_str(p)
 
 
+def tuple_field_alias(body):
+    """(local, field) -> place, for locals defined once as a tuple aggregate of reference copies:
+    `_3 = (copy _1, copy _2)` makes `(*(_3.0))` the same place as `(*_1)`"""
+    out = {}
+    for l, ds in body.defs().items():
+        if len(ds) != 1 or ds[0][0] != "stmt":
+            continue
+        rv = ds[0][3]["rv"]
+        if rv["k"] == "agg" and rv.get("adt") == "(tuple)" and not ds[0][3]["d"].get("p"):
+            for i, op in enumerate(rv["ops"]):
+                sp = op_place(op)
+                if sp is not None and body.local_ty(l).startswith("(&"):
+                    out[(l, str(i))] = sp
+    return out
+
+
+def ref_equalities(body, ta):
+    """local -> local holding the same reference value (`_24 = copy _3.0` where `_3 = (copy _1, ..)` gives _24 -> _1)"""
+    out = {}
+    defs = body.defs()
+    for _ in range(4):
+        for l, ds in defs.items():
+            if l in out or len(ds) != 1 or ds[0][0] != "stmt" or ds[0][3]["d"].get("p"):
+                continue
+            if not body.local_ty(l).startswith("&"):
+                continue
+            rv = ds[0][3]["rv"]
+            if rv["k"] != "use":
+                continue
+            sp = op_place(rv["op"])
+            if sp is None:
+                continue
+            pr = sp.get("p", [])
+            if not pr:
+                out[l] = out.get(sp["l"], sp["l"])
+            elif len(pr) == 1 and isinstance(pr[0], dict) and "f" in pr[0] and (sp["l"], pr[0]["f"]) in ta:
+                q = ta[(sp["l"], pr[0]["f"])]
+                if not q.get("p"):
+                    out[l] = out.get(q["l"], q["l"])
+    return out
+
+
 def strip_deref_alias(body, p, alias):
     """canonicalise (*_n).rest where _n = &q  into q.rest"""
     proj = p.get("p", [])
     l = p["l"]
     guard = 0
+    ta = getattr(body, "_tuple_alias", None)
+    if ta is None:
+        ta = tuple_field_alias(body)
+        body._tuple_alias = ta
+    re_ = getattr(body, "_refeq", None)
+    if re_ is None:
+        re_ = ref_equalities(body, ta)
+        body._refeq = re_
+    if proj and proj[0] == "*" and l in re_ and l not in alias:
+        l = re_[l]
+    if len(proj) >= 2 and isinstance(proj[0], dict) and "f" in proj[0] and proj[1] == "*" and (l, proj[0]["f"]) in ta:
+        q = ta[(l, proj[0]["f"])]
+        l = q["l"]
+        proj = list(q.get("p", [])) + list(proj[1:])
     while proj and proj[0] == "*" and l in alias and guard < 8:
         q = alias[l]
         l = q["l"]
@@ -309,6 +365,9 @@ class VarFlow:
                         ns = dict(st)
                         if cur is not None:
                             ns[key] = frozenset(cur - explicit)
+                        else:
+                            prev = ns.get(key + " !=", frozenset())
+                            ns[key + " !="] = frozenset(prev | explicit)
                         yield t["otherwise"], ns
                 return
             for s in body.succ(bb):
